@@ -561,6 +561,8 @@ func c20RunLog(in *c20In) Result {
 	}
 	sig := "log:clean"
 	switch {
+	case c20Panics(in.Ops) && inScope > 0:
+		sig = "panic-without-errors-directive"
 	case len(scopes) > 1:
 		sig = "overlapping-scopes"
 	case !c20WellBehaved(in.Ops, in.Ret):
